@@ -117,9 +117,10 @@ func Sleep(d time.Duration) {
 	case sched.ModeAborting:
 	default:
 		if virtualOn {
-			if d > 0 {
-				virtualNow = virtualNow.Add(d)
+			if d < MinSleep {
+				d = MinSleep
 			}
+			virtualNow = virtualNow.Add(d)
 			return
 		}
 		time.Sleep(d)
